@@ -9,6 +9,10 @@ CHECKS = {
    text="Every generated (schema, pandas frame/series) pair is validated by the real code and the verdict is compared with a pure-Python reference model of the documented semantics; accepted results are compared bit-for-bit with the input. Held-on-observed-executions, not a proof.",
    note="Trusts pvm/model.py (documented semantics), pandas/numpy as containers; regions the docs leave open (two nulls under unique, str dtype on empty/all-null foreign columns, joint uniqueness over repeated labels) are generated but not judged.",
    ref="4/C01"),
+ "C02": dict(cat="exploration", tech="differential eager/lazy runs of the real validate + reference-model oracle for the failure-case report",
+   text="Each generated (schema, data) pair is validated eagerly and lazily by the real code: raise-equivalence, eager-error-in-lazy-errors and error_counts are checked on every rejected case; the lazy failure cases are compared cell-exactly (column, row position, value) with the reference model's violating cells on pandas and by (column, row position) on polars.",
+   note="Cell-exact comparison needs unique non-null row labels, no repeated column labels and well-typed columns (elsewhere only the meta-relations are asserted). Trusts pvm/model.py.",
+   ref="4/C02"),
 }
 NOT_YET = {}
 
